@@ -152,6 +152,21 @@ PROPS['C12'] = dict(
     level_text='Bounded symbolic model checking of the exact clause: the real assembly code runs on symbolic data; whatever solution of its system the solver returns, the real operator() of the returned spline must give the ordinate at every node, adjacent pieces must agree in derivatives 1..order-1 at interior nodes, and every boundary condition must hold. Contradictory systems (path condition unsat) are recorded as outside the claim, not as passes.',
     level_note='Exact reals; orders, node counts, paddings and boundary sequences enumerated to the bound; the Eigen/Armadillo solvers are not part of the claim; trusted: g++, libz3, sym.h/harness.h, oracle + StubSolver in C12_interp.cpp.')
 
+PROPS['C17'] = dict(
+    engine='A', technique='symbolic-scalar execution of the real integrate<n> over an exact Gauss-Legendre stub (algebraic nodes as constrained symbols) + QF_NRA obligations; replay in an exact tower of quadratic extensions of Q',
+    harnesses=[dict(name='C17_quadrature', src='C17_quadrature.cpp', pre_includes=['symt/stub'],
+                    defs=dict(quick=['-DMAXQ=4', '-DMAXO=2', '-DMAXN=4'], thorough=['-DMAXQ=5', '-DMAXO=3', '-DMAXN=4']),
+                    functions=['integration::integrate<n>', 'Support::calcIntersection', 'Support::intervalIndexFromAbsolute', 'Support::absoluteFromRelative', 'Support::at', 'Grid::at',
+                               'internal::evaluateInterval', 'BilinearForm::evaluate (weight as X-polynomial operator)'])],
+    bounds=dict(quick='quadrature sizes n = 1..4, spline orders {0..2}^2, polynomial weights of degree 0..2 with symbolic coefficients, every (n, o1, o2, d) with 2n-1 >= o1+o2+d; every ordered window pair on grids of 2..4 symbolic points',
+                thorough='n = 1..5, orders {0..3}^2'),
+    outside='boost\'s rounded double node/weight tables and floating-point rounding ("up to rounding" is read as exact equality in exact arithmetic); n > 5; non-polynomial weights; sizes beyond the exactness bound (no claim is made there)',
+    stubs=['symt/stub/boost/math/quadrature/gauss.hpp + symt/gauss_nodes.h: exact n-point Gauss-Legendre rule, nodes/weights as algebraic numbers (n=2: s^2=1/3; n=3: s^2=3/5; n=4,5: nested radicals), contract = exactness to degree 2n-1'],
+    assumptions=['grid points strictly increasing reals', 'gauss<T,N>::integrate implements the exact N-point Gauss-Legendre rule', 'exact real arithmetic'],
+    trusted=A_TRUST + ['the Gauss-Legendre node/weight formulas in symt/gauss_nodes.h'],
+    level_text='Bounded symbolic model checking (exact-arithmetic reading): the real integrate<n> is run on symbolic splines with the library\'s integrand lambda evaluated at the exact Gauss nodes; the result must equal both the harness\'s exact integral of f*m1*m2 over the common intervals and the real BilinearForm with f as an operator, whenever 2n-1 >= order1+order2+d.',
+    level_note='Exact reals with algebraic nodes; quadrature size, orders, weight degree and windows enumerated to the bound; boost tables/rounding not covered; trusted: g++, libz3, sym.h/harness.h, gauss stub, oracle in C17_quadrature.cpp.')
+
 _NOT_BUILT = 'check not built yet in this round (planned, see DESIGN.md section 5)'
 NOT_APPLICABLE = {
     'C16': 'floating-point forward-error bound: bit-precise FP or (1+delta) NRA encodings of even the smallest instance return unknown/timeout on every installed solver (DESIGN.md section 7)',
